@@ -183,7 +183,7 @@ func writeSearchKey(enc *imapwire.Encoder, criteria *imap.SearchCriteria) {
 		encodeItem().Atom("UID").SP().NumSet(uidSet)
 	}
 
-	if !criteria.Since.IsZero() && !criteria.Before.IsZero() && criteria.Before.Sub(criteria.Since) == 24*time.Hour {
+	if !criteria.Since.IsZero() && !criteria.Before.IsZero() && isNextDay(criteria.Since, criteria.Before) {
 		encodeItem().Atom("ON").SP().String(criteria.Since.Format(internal.DateLayout))
 	} else {
 		if !criteria.Since.IsZero() {
@@ -193,7 +193,7 @@ func writeSearchKey(enc *imapwire.Encoder, criteria *imap.SearchCriteria) {
 			encodeItem().Atom("BEFORE").SP().String(criteria.Before.Format(internal.DateLayout))
 		}
 	}
-	if !criteria.SentSince.IsZero() && !criteria.SentBefore.IsZero() && criteria.SentBefore.Sub(criteria.SentSince) == 24*time.Hour {
+	if !criteria.SentSince.IsZero() && !criteria.SentBefore.IsZero() && isNextDay(criteria.SentSince, criteria.SentBefore) {
 		encodeItem().Atom("SENTON").SP().String(criteria.SentSince.Format(internal.DateLayout))
 	} else {
 		if !criteria.SentSince.IsZero() {
@@ -272,6 +272,15 @@ func writeSearchKey(enc *imapwire.Encoder, criteria *imap.SearchCriteria) {
 	}
 
 	enc.Special(')')
+}
+
+// isNextDay checks whether the calendar day of b follows the calendar day of
+// a. Only the dates are sent to the server, the time and timezone are ignored.
+func isNextDay(a, b time.Time) bool {
+	y, m, d := a.Date()
+	ny, nm, nd := time.Date(y, m, d+1, 0, 0, 0, 0, time.UTC).Date()
+	by, bm, bd := b.Date()
+	return ny == by && nm == bm && nd == bd
 }
 
 func flagSearchKey(flag imap.Flag) string {
